@@ -59,3 +59,68 @@ func VerifC30_Intervals() {
 	}
 	rt.Assert(maxStop == wantStop, "max-stop-is-end-of-covered-window")
 }
+
+// C30 (inductive step): from an arbitrary valid buffer state (one or two interval lists, each made of one
+// or two adjacent nodes, lists separated by a gap) one more write of any position and length keeps the
+// byte-array semantics. This reaches joins onto multi-node lists that short histories do not.
+func VerifC30_IntervalStep() {
+	c := &ContinuousIntervals{}
+	var model [verifFileSpan]byte
+	var written [verifFileSpan]bool
+	nLists := rt.Len("lists", 1, 2)
+	pos := int64(rt.Len("first-offset", 0, 1)) // the existing lists have concrete positions; the new write is symbolic
+	for l := 0; l < nLists; l++ {
+		nNodes := rt.Len("nodes", 1, 2)
+		list := &IntervalLinkedList{}
+		for k := 0; k < nNodes; k++ {
+			n := rt.Len("nodelen", 1, 2)
+			data := rt.Bytes("nodedata", n)
+			node := &IntervalNode{Data: data, Offset: pos, Size: int64(n)}
+			if list.Head == nil {
+				list.Head, list.Tail = node, node
+			} else {
+				list.Tail.Next = node
+				list.Tail = node
+			}
+			for j := 0; j < n; j++ {
+				model[pos+int64(j)] = data[j]
+				written[pos+int64(j)] = true
+			}
+			pos += int64(n)
+		}
+		c.lists = append(c.lists, list)
+		pos += int64(rt.Len("gap", 1, 2)) // adjacent lists would have been joined
+	}
+	// one more write
+	n := rt.Len("len", 1, rt.Param("maxlen", 3))
+	off := int64(rt.U8("offset"))
+	rt.Assume(off+int64(n) <= verifFileSpan)
+	data := rt.Bytes("data", n)
+	c.AddInterval(data, off)
+	for j := 0; j < n; j++ {
+		model[off+int64(j)] = data[j]
+		written[off+int64(j)] = true
+	}
+	rt.Cover("stepped")
+	covered := int64(0)
+	for p := 0; p < verifFileSpan; p++ {
+		if written[p] {
+			covered++
+		}
+	}
+	rt.Assert(c.TotalSize() == covered, "total-size-equals-covered-bytes")
+	buf := make([]byte, verifFileSpan)
+	maxStop := c.ReadDataAt(buf, 0)
+	wantStop := int64(0)
+	ok := true
+	for p := 0; p < verifFileSpan; p++ {
+		if written[p] {
+			ok = rt.And(ok, buf[p] == model[p])
+			wantStop = int64(p) + 1
+		} else {
+			ok = rt.And(ok, buf[p] == 0)
+		}
+	}
+	rt.Assert(ok, "read-returns-last-written-bytes")
+	rt.Assert(maxStop == wantStop, "max-stop-is-end-of-covered-window")
+}
